@@ -50,6 +50,15 @@ def pm_value(config):
     return int(b) if config.get("pm_int") else b
 
 
+def exec_body_stmt(ctx, st, ids):
+    """one body statement: SQL through ctx.execute, or - what == "read" - the migration reads the current heads mid-way
+    (a guard in a data migration: op.get_context().get_current_heads()); the result is ignored"""
+    if st[1] == "read":
+        ctx.get_current_heads()
+    else:
+        ctx.execute(sql_of(st, ids))
+
+
 def sql_of(stmt, ids=None):
     kind, what, e = stmt
     if what in ("vdel", "vins"):
@@ -244,14 +253,14 @@ class Oracle:
                         self.pos += 1
                         for st in seg["stmts"]:
                             self._tick()
-                            ctx.execute(sql_of(st, self.ids))
+                            exec_body_stmt(ctx, st, self.ids)
                             self.pos += 1
                         self._tick()  # at the end of the block, still inside it
                     self.pos += 1
                 else:
                     for st in seg["stmts"]:
                         self._tick()
-                        ctx.execute(sql_of(st, self.ids))
+                        exec_body_stmt(ctx, st, self.ids)
                         self.pos += 1
         finally:
             self.in_body = False
